@@ -27,7 +27,7 @@ type liveState struct {
 	failKind map[string]int
 	// kind of the failure already injected into the computation in progress, per instance
 	execFired map[int]int
-	writes   int
+	writes    int
 	// onCanceled is told which subscription instance got a context.Canceled
 	// error from a resolver
 	onCanceled func(inst int)
